@@ -479,8 +479,78 @@ def refused_check(svg):
     return failsafe.Refused(svg, sc)
 
 
+class DegenerateArcs(SubCheck):
+    """arc commands on the boundary of the arc construction: the end point IS the current point, one or both radii are
+    zero or vanishing.  They have no geometry of their own to compare (the sequences sub-check skips them), but they are
+    segments: the written text must re-parse to the same number and kinds of segments with the same end points, in
+    every output form, as str(path) and as Subpath.d()"""
+    name = "degenerate-arcs"
+    single_outcome_ok = True
+    ARCS = ["A 5,5 0 0,1 {x},{y}", "a 5,5 0 0,1 0,0", "a 8,3 30 1,0 0,0", "a 0,0 0 0,1 3,4", "A 0,5 0 0,1 4,5", "a 5,0 30 1,0 4,5",
+            "a 1e-9,1e-9 0 0 1 1,1", "a 5,5 0 1,1 0,0 a 5,5 0 1,1 0,0"]
+    FRAMES = ["M {x},{y} %s", "M 1,1 L {x},{y} %s L 40,20 Z", "M 1,1 L {x},{y} %s z m 3,3 l 1,0", "M 1,1 Q 2,7 {x},{y} %s t 3,3",
+              "M 0,0 h 3 z M {x},{y} %s z"]
+
+    def __init__(self, svg):
+        self.svg = svg
+        self.p = Product(self.ARCS, self.FRAMES, [(20, 10), (-3.5, 2.25)])
+
+    def size(self):
+        return len(self.p)
+
+    def case(self, i):
+        arc, frame, (x, y) = self.p[i]
+        return {"d": (frame % arc).format(x=x, y=y)}
+
+    def run(self, case):
+        out = Outcome()
+        svg = self.svg
+        d = case["d"]
+        try:
+            p = out.keep(svg.Path(d))
+        except Exception as e:  # noqa
+            out.fail("Path(%r) raised" % d, None, repr(e), kind="exception")
+            return out
+        out.nontrivial.append(d)
+        out.outcome = tuple(type(s).__name__[0] for s in p)
+
+        def same(q, src, what, text):
+            out.transitions += 1
+            kinds_q, kinds_p = [type(s).__name__ for s in q], [type(s).__name__ for s in src]
+            if kinds_q != kinds_p:
+                out.fail("%s of %r re-parses to %r, the path has %r" % (what, d, kinds_q, kinds_p), kinds_p, kinds_q, kind="kinds",
+                         text=text, d=d)
+                return
+            for i, (a, b) in enumerate(zip(src, q)):
+                if a.end is not None and (b.end is None or abs(a.end - b.end) > 1e-9 * (1 + abs(a.end))):
+                    out.fail("%s of %r: segment %d ends at %r, the path's at %r" % (what, d, i, b.end, a.end), repr(a.end), repr(b.end),
+                             kind="geometry", text=text, d=d)
+                    return
+
+        for r in RS:
+            for sm in RS:
+                try:
+                    text = p.d(relative=r, smooth=sm)
+                    same(svg.Path(text), list(p), "d(relative=%r, smooth=%r)" % (r, sm), text)
+                except Exception as e:  # noqa
+                    out.fail("d(relative=%r, smooth=%r) of %r or its re-parse raised %s" % (r, sm, d, type(e).__name__), None, repr(e),
+                             kind="exception", d=d)
+        try:
+            same(svg.Path(str(p)), list(p), "str(path)", str(p))
+            for sub in p.as_subpaths():
+                segs = list(sub.segments(transformed=False))
+                if segs and type(segs[0]).__name__ == "Move":
+                    text = sub.d()
+                    same(svg.Path(text), segs, "Subpath.d()", text)
+        except Exception as e:  # noqa
+            out.fail("str / Subpath.d() of %r or its re-parse raised %s" % (d, type(e).__name__), None, repr(e), kind="exception", d=d)
+        out.traces += 1
+        return out
+
+
 def build(tier, seed, svg):
-    return [Sequences(svg, tier, seed), Handles(svg, tier, seed), Arcs(svg, tier), Precision(svg, tier), stale_check(svg, tier), refused_check(svg)]
+    return [Sequences(svg, tier, seed), Handles(svg, tier, seed), Arcs(svg, tier), Precision(svg, tier), DegenerateArcs(svg),
+            stale_check(svg, tier), refused_check(svg)]
 
 
 def m_subpath_fragment(d):
